@@ -124,7 +124,7 @@ func (f prefixFilter) Filter(refname string) bool {
 // whose names match the specified `prefix`, which must match the
 // whole reference name.
 func RegexpFilter(pattern string) (ReferenceFilter, error) {
-	pattern = "^" + pattern + "$"
+	pattern = "^(?:" + pattern + ")$"
 	re, err := regexp.Compile(pattern)
 	if err != nil {
 		return nil, err
